@@ -233,6 +233,8 @@ func runQueueCase(t *testing.T, r *rep.Reporter, c *rep.Case, ci int) {
 	closed = true
 	if snapErr != "" {
 		c.Inconclusive("could not read the spool meta file: " + snapErr)
+		c.Done("snapshot-failed", false)
+		return
 	}
 
 	// ---- history: last chain per (attempt, recipient)
@@ -397,10 +399,9 @@ func runQueueCase(t *testing.T, r *rep.Reporter, c *rep.Case, ci int) {
 		}
 		rp := mx.ParseReport(s.Header, s.Body)
 		r.Count("queue_reports", 1)
-		for _, pr := range rp.Problems {
-			r.Distinct("dbg_problems", pr)
+		if len(rp.Problems) > 0 {
+			r.Count("queue_reports_with_structural_problems(judged by C18)", 1)
 		}
-		r.Distinct("dbg_groups", fmt.Sprint(len(rp.Rcpts)))
 		human := ""
 		if len(rp.Parts) > 0 {
 			human = string(rp.Parts[0].Body)
@@ -422,7 +423,6 @@ func runQueueCase(t *testing.T, r *rep.Reporter, c *rep.Case, ci int) {
 	for rc := range lastFate {
 		if !reported[rc] {
 			r.Count("queue_terminal_failure_without_report_group(judged by C18)", 1)
-			r.Distinct("dbg_missing", lastFate[rc].ch.shape()+"|"+lastFate[rc].stage+"|"+fmt.Sprint(lastFate[rc].attempt, maxTries, utf8))
 		}
 	}
 	judgeObserver(r, c, "queue")
